@@ -30,14 +30,19 @@ class C10(ChanSpec):
         lines += [l for l in so.split("\n") if l.startswith("C14 head") or l.startswith("#case")]
         if rc != 0:
             lines.append("C14 crash harness-exit-%d" % rc)
+        # refused streamed writes (non-blocking channel, full queue): the pool must not end up holding a buffer twice
+        rc, so, se = core.run([os.path.join(core.BIN, "nvh"), "-prop", "C18", "-seed", str(seed), "-count", str(200 if tier == "quick" else 5000)], timeout=1800)
+        lines += [l for l in so.split("\n") if l.startswith("C18 rf") or l.startswith("#case c18rf")]
+        if rc != 0:
+            lines.append("C18 crash harness-exit-%d" % rc)
         return lines
 
     def nontrivial(self, line, answer):
         t = line.split()
-        return t[1] == "end" or t[0] == "C14"
+        return t[1] == "end" or t[0] in ("C14", "C18")
 
     def extra_coverage(self, pairs):
-        cov = super().extra_coverage([(l, a) for l, a in pairs if not l.startswith("C14 ")])
+        cov = super().extra_coverage([(l, a) for l, a in pairs if not l.startswith("C14 ") and not l.startswith("C18 ")])
         cov["carrier_messages_compared"] = sum(1 for l, a in pairs if l.startswith("C14 "))
         return cov
 
